@@ -1,10 +1,2179 @@
-//! C12 — stub: property not yet claimed.
+//! C12 — interceptors change only what they change and can veto a call.
+//!
+//! Drives the real `tonic::service::interceptor::InterceptedService` (through `new` or through
+//! `InterceptorLayer`) around a recording inner service, with a scripted stateful interceptor.
+//!
+//! case    := KIND via nscripts script* ncalls call*
+//! script  := nops op* ( ok | rej ctor code msg details src hdrs )
+//! op      := hins n v s | happ n v s | hrem n | mins n v | mapp n v | mrem n
+//!          | bins n raw | bapp n raw | brem n | clear | cnt n | xset id v | xrm id | xclear
+//! call    := method version uri hdrs ext body resp
+//! hdrs    := count (name value sens)*          ext := count (id value)*
+//! body    := nchunks chunk* ( notr | tr hdrs )
+//! resp    := r status version hdrs ext body | e n
+//!
+//! observed := per call: `isaw hdrs xext` (`iret hdrs xext` | `irej code msg details hdrs`)
+//!             (`inner method version uri hdrs xext body` | `noinner`)
+//!             (`out status version hdrs xext eos szlo szhi body` | `outerr n`), then `calls n`
+//! where xext := total-len count (id value)*, header lists sorted by name (per-name order kept).
 use crate::common::*;
+use bytes::Bytes;
+use http::{HeaderMap, HeaderName, HeaderValue};
+use http_body::{Body, Frame, SizeHint};
+use std::collections::VecDeque;
+use std::pin::Pin;
+use std::sync::{Arc, Mutex};
+use std::task::{Context, Poll, Waker};
+use tonic::metadata::{MetadataKey, MetadataMap, MetadataValue};
+use tonic::service::interceptor::{InterceptedService, InterceptorLayer};
+use tonic::{Code, Status};
+use tower_layer::Layer;
+use tower_service::Service;
 
-pub fn generate(_tier: &str, _rng: &mut Rng) -> Vec<String> {
-    Vec::new()
+// ---------------------------------------------------------------------------------------------
+// case data
+
+#[derive(Clone, Debug)]
+struct H(Vec<(Vec<u8>, Vec<u8>, bool)>);
+
+#[derive(Clone, Debug)]
+enum Op {
+    HIns(Vec<u8>, Vec<u8>, bool),
+    HApp(Vec<u8>, Vec<u8>, bool),
+    HRem(Vec<u8>),
+    MIns(Vec<u8>, Vec<u8>),
+    MApp(Vec<u8>, Vec<u8>),
+    MRem(Vec<u8>),
+    BIns(Vec<u8>, Vec<u8>),
+    BApp(Vec<u8>, Vec<u8>),
+    BRem(Vec<u8>),
+    Clear,
+    Cnt(Vec<u8>),
+    XSet(u8, Vec<u8>),
+    XRm(u8),
+    XClear,
 }
 
-pub fn execute(_case: &str) -> String {
-    "unclaimed".into()
+#[derive(Clone, Debug)]
+struct Rej {
+    ctor: u8,
+    code: i32,
+    msg: Vec<u8>,
+    details: Vec<u8>,
+    src: bool,
+    md: H,
+}
+
+#[derive(Clone, Debug)]
+struct Script {
+    ops: Vec<Op>,
+    rej: Option<Rej>,
+}
+
+#[derive(Clone, Debug)]
+struct BodyScript {
+    chunks: Vec<Vec<u8>>,
+    trailers: Option<H>,
+}
+
+#[derive(Clone, Debug)]
+enum Resp {
+    R { status: u16, version: u8, hdrs: H, ext: Vec<(u8, Vec<u8>)>, body: BodyScript },
+    E(u32),
+}
+
+#[derive(Clone, Debug)]
+struct Call {
+    /// what the wrapped service's `poll_ready` says before this call: 0 ready, 1 pending, 2+n `Err(n)`
+    ready: u32,
+    method: Vec<u8>,
+    version: u8,
+    uri: Vec<u8>,
+    hdrs: H,
+    ext: Vec<(u8, Vec<u8>)>,
+    body: BodyScript,
+    resp: Resp,
+}
+
+#[derive(Clone, Debug)]
+struct Case {
+    kind: String,
+    via: String,
+    scripts: Vec<Script>,
+    calls: Vec<Call>,
+}
+
+// ---------------------------------------------------------------------------------------------
+// rendering of cases
+
+fn r_h(h: &H, out: &mut Vec<String>) {
+    out.push(h.0.len().to_string());
+    for (n, v, s) in &h.0 {
+        out.push(hex(n));
+        out.push(hex(v));
+        out.push(if *s { "1".into() } else { "0".into() });
+    }
+}
+fn r_ext(x: &[(u8, Vec<u8>)], out: &mut Vec<String>) {
+    out.push(x.len().to_string());
+    for (id, v) in x {
+        out.push(id.to_string());
+        out.push(hex(v));
+    }
+}
+fn r_body(b: &BodyScript, out: &mut Vec<String>) {
+    out.push(b.chunks.len().to_string());
+    for c in &b.chunks {
+        out.push(hex(c));
+    }
+    match &b.trailers {
+        None => out.push("notr".into()),
+        Some(h) => {
+            out.push("tr".into());
+            r_h(h, out);
+        }
+    }
+}
+fn r_op(op: &Op, out: &mut Vec<String>) {
+    let b = |s: bool| if s { "1".to_string() } else { "0".to_string() };
+    match op {
+        Op::HIns(n, v, s) => out.extend(["hins".into(), hex(n), hex(v), b(*s)]),
+        Op::HApp(n, v, s) => out.extend(["happ".into(), hex(n), hex(v), b(*s)]),
+        Op::HRem(n) => out.extend(["hrem".into(), hex(n)]),
+        Op::MIns(n, v) => out.extend(["mins".into(), hex(n), hex(v)]),
+        Op::MApp(n, v) => out.extend(["mapp".into(), hex(n), hex(v)]),
+        Op::MRem(n) => out.extend(["mrem".into(), hex(n)]),
+        Op::BIns(n, v) => out.extend(["bins".into(), hex(n), hex(v)]),
+        Op::BApp(n, v) => out.extend(["bapp".into(), hex(n), hex(v)]),
+        Op::BRem(n) => out.extend(["brem".into(), hex(n)]),
+        Op::Clear => out.push("clear".into()),
+        Op::Cnt(n) => out.extend(["cnt".into(), hex(n)]),
+        Op::XSet(id, v) => out.extend(["xset".into(), id.to_string(), hex(v)]),
+        Op::XRm(id) => out.extend(["xrm".into(), id.to_string()]),
+        Op::XClear => out.push("xclear".into()),
+    }
+}
+fn render(c: &Case) -> String {
+    let mut o: Vec<String> = vec![c.kind.clone(), c.via.clone(), c.scripts.len().to_string()];
+    for s in &c.scripts {
+        o.push(s.ops.len().to_string());
+        for op in &s.ops {
+            r_op(op, &mut o);
+        }
+        match &s.rej {
+            None => o.push("ok".into()),
+            Some(r) => {
+                o.extend([
+                    "rej".into(),
+                    r.ctor.to_string(),
+                    r.code.to_string(),
+                    hex(&r.msg),
+                    hex(&r.details),
+                    if r.src { "1".into() } else { "0".into() },
+                ]);
+                r_h(&r.md, &mut o);
+            }
+        }
+    }
+    o.push(c.calls.len().to_string());
+    for k in &c.calls {
+        if k.ready == 1 {
+            o.push("!p".into());
+        } else if k.ready >= 2 {
+            o.push(format!("!e{}", k.ready - 2));
+        }
+        o.extend([hex(&k.method), k.version.to_string(), hex(&k.uri)]);
+        r_h(&k.hdrs, &mut o);
+        r_ext(&k.ext, &mut o);
+        r_body(&k.body, &mut o);
+        match &k.resp {
+            Resp::E(n) => o.extend(["e".into(), n.to_string()]),
+            Resp::R { status, version, hdrs, ext, body } => {
+                o.extend(["r".into(), status.to_string(), version.to_string()]);
+                r_h(hdrs, &mut o);
+                r_ext(ext, &mut o);
+                r_body(body, &mut o);
+            }
+        }
+    }
+    o.join(" ")
+}
+
+// ---------------------------------------------------------------------------------------------
+// parsing of cases
+
+struct Toks<'a> {
+    t: Vec<&'a str>,
+    i: usize,
+}
+impl<'a> Toks<'a> {
+    fn next(&mut self) -> Option<&'a str> {
+        let r = self.t.get(self.i).copied();
+        self.i += 1;
+        r
+    }
+    fn num<T: std::str::FromStr>(&mut self) -> Option<T> {
+        self.next()?.parse().ok()
+    }
+    fn bytes(&mut self) -> Option<Vec<u8>> {
+        unhex(self.next()?)
+    }
+    fn flag(&mut self) -> Option<bool> {
+        match self.next()? {
+            "0" => Some(false),
+            "1" => Some(true),
+            _ => None,
+        }
+    }
+    fn h(&mut self) -> Option<H> {
+        let n: usize = self.num()?;
+        let mut v = Vec::new();
+        for _ in 0..n {
+            v.push((self.bytes()?, self.bytes()?, self.flag()?));
+        }
+        Some(H(v))
+    }
+    fn ext(&mut self) -> Option<Vec<(u8, Vec<u8>)>> {
+        let n: usize = self.num()?;
+        let mut v = Vec::new();
+        for _ in 0..n {
+            v.push((self.num()?, self.bytes()?));
+        }
+        Some(v)
+    }
+    fn body(&mut self) -> Option<BodyScript> {
+        let n: usize = self.num()?;
+        let mut chunks = Vec::new();
+        for _ in 0..n {
+            chunks.push(self.bytes()?);
+        }
+        let trailers = match self.next()? {
+            "notr" => None,
+            "tr" => Some(self.h()?),
+            _ => return None,
+        };
+        Some(BodyScript { chunks, trailers })
+    }
+    fn op(&mut self) -> Option<Op> {
+        Some(match self.next()? {
+            "hins" => Op::HIns(self.bytes()?, self.bytes()?, self.flag()?),
+            "happ" => Op::HApp(self.bytes()?, self.bytes()?, self.flag()?),
+            "hrem" => Op::HRem(self.bytes()?),
+            "mins" => Op::MIns(self.bytes()?, self.bytes()?),
+            "mapp" => Op::MApp(self.bytes()?, self.bytes()?),
+            "mrem" => Op::MRem(self.bytes()?),
+            "bins" => Op::BIns(self.bytes()?, self.bytes()?),
+            "bapp" => Op::BApp(self.bytes()?, self.bytes()?),
+            "brem" => Op::BRem(self.bytes()?),
+            "clear" => Op::Clear,
+            "cnt" => Op::Cnt(self.bytes()?),
+            "xset" => Op::XSet(self.num()?, self.bytes()?),
+            "xrm" => Op::XRm(self.num()?),
+            "xclear" => Op::XClear,
+            _ => return None,
+        })
+    }
+}
+
+fn parse(case: &str) -> Option<Case> {
+    let mut t = Toks { t: case.split(' ').filter(|s| !s.is_empty()).collect(), i: 0 };
+    let kind = t.next()?.to_string();
+    let via = t.next()?.to_string();
+    let ns: usize = t.num()?;
+    let mut scripts = Vec::new();
+    for _ in 0..ns {
+        let nops: usize = t.num()?;
+        let mut ops = Vec::new();
+        for _ in 0..nops {
+            ops.push(t.op()?);
+        }
+        let rej = match t.next()? {
+            "ok" => None,
+            "rej" => Some(Rej {
+                ctor: t.num()?,
+                code: t.num()?,
+                msg: t.bytes()?,
+                details: t.bytes()?,
+                src: t.flag()?,
+                md: t.h()?,
+            }),
+            _ => return None,
+        };
+        scripts.push(Script { ops, rej });
+    }
+    let nc: usize = t.num()?;
+    let mut calls = Vec::new();
+    for _ in 0..nc {
+        // optional readiness marker: `!p` pending, `!e<n>` error n (default: ready)
+        let mut ready = 0u32;
+        if let Some(tok) = t.t.get(t.i).copied() {
+            if let Some(m) = tok.strip_prefix('!') {
+                t.i += 1;
+                ready = if m == "p" {
+                    1
+                } else if let Some(n) = m.strip_prefix('e') {
+                    2 + n.parse::<u32>().ok()?
+                } else {
+                    return None;
+                };
+            }
+        }
+        let method = t.bytes()?;
+        let version = t.num()?;
+        let uri = t.bytes()?;
+        let hdrs = t.h()?;
+        let ext = t.ext()?;
+        let body = t.body()?;
+        let resp = match t.next()? {
+            "e" => Resp::E(t.num()?),
+            "r" => Resp::R { status: t.num()?, version: t.num()?, hdrs: t.h()?, ext: t.ext()?, body: t.body()? },
+            _ => return None,
+        };
+        calls.push(Call { ready, method, version, uri, hdrs, ext, body, resp });
+    }
+    if t.i != t.t.len() {
+        return None;
+    }
+    Some(Case { kind, via, scripts, calls })
+}
+
+// ---------------------------------------------------------------------------------------------
+// real objects
+
+#[derive(Clone)]
+struct Ext0(Vec<u8>);
+#[derive(Clone)]
+struct Ext1(Vec<u8>);
+#[derive(Clone)]
+struct Ext2(Vec<u8>);
+#[derive(Clone)]
+struct Ext3(Vec<u8>);
+
+fn ext_set(x: &mut http::Extensions, id: u8, v: Vec<u8>) {
+    match id {
+        0 => drop(x.insert(Ext0(v))),
+        1 => drop(x.insert(Ext1(v))),
+        2 => drop(x.insert(Ext2(v))),
+        _ => drop(x.insert(Ext3(v))),
+    }
+}
+fn ext_rm(x: &mut http::Extensions, id: u8) {
+    match id {
+        0 => drop(x.remove::<Ext0>()),
+        1 => drop(x.remove::<Ext1>()),
+        2 => drop(x.remove::<Ext2>()),
+        _ => drop(x.remove::<Ext3>()),
+    }
+}
+fn mk_ext(x: &[(u8, Vec<u8>)]) -> http::Extensions {
+    let mut e = http::Extensions::new();
+    for (id, v) in x {
+        ext_set(&mut e, *id, v.clone());
+    }
+    e
+}
+fn show_ext(x: &http::Extensions) -> String {
+    let mut items: Vec<String> = Vec::new();
+    if let Some(v) = x.get::<Ext0>() {
+        items.push(format!("0 {}", hex(&v.0)));
+    }
+    if let Some(v) = x.get::<Ext1>() {
+        items.push(format!("1 {}", hex(&v.0)));
+    }
+    if let Some(v) = x.get::<Ext2>() {
+        items.push(format!("2 {}", hex(&v.0)));
+    }
+    if let Some(v) = x.get::<Ext3>() {
+        items.push(format!("3 {}", hex(&v.0)));
+    }
+    let mut s = format!("{} {}", x.len(), items.len());
+    for i in items {
+        s.push(' ');
+        s.push_str(&i);
+    }
+    s
+}
+
+fn mk_headers(h: &H) -> Option<HeaderMap> {
+    let mut m = HeaderMap::new();
+    for (n, v, s) in &h.0 {
+        let name = HeaderName::from_bytes(n).ok()?;
+        let mut val = HeaderValue::from_bytes(v).ok()?;
+        val.set_sensitive(*s);
+        m.append(name, val);
+    }
+    Some(m)
+}
+
+fn show_headers(m: &HeaderMap) -> String {
+    let mut keys: Vec<&HeaderName> = m.keys().collect();
+    keys.sort_by(|a, b| a.as_str().as_bytes().cmp(b.as_str().as_bytes()));
+    keys.dedup();
+    let mut s = m.len().to_string();
+    for k in keys {
+        for v in m.get_all(k) {
+            s.push_str(&format!(
+                " {} {} {}",
+                hex(k.as_str().as_bytes()),
+                hex(v.as_bytes()),
+                if v.is_sensitive() { 1 } else { 0 }
+            ));
+        }
+    }
+    s
+}
+
+fn version_of(v: u8) -> Option<http::Version> {
+    Some(match v {
+        9 => http::Version::HTTP_09,
+        10 => http::Version::HTTP_10,
+        11 => http::Version::HTTP_11,
+        2 => http::Version::HTTP_2,
+        3 => http::Version::HTTP_3,
+        _ => return None,
+    })
+}
+fn version_tok(v: http::Version) -> &'static str {
+    if v == http::Version::HTTP_09 {
+        "9"
+    } else if v == http::Version::HTTP_10 {
+        "10"
+    } else if v == http::Version::HTTP_11 {
+        "11"
+    } else if v == http::Version::HTTP_2 {
+        "2"
+    } else if v == http::Version::HTTP_3 {
+        "3"
+    } else {
+        "?"
+    }
+}
+
+/// A body that yields scripted frames; counts polls after the end.
+struct ScriptBody {
+    frames: VecDeque<Frame<Bytes>>,
+    remaining_data: u64,
+}
+impl ScriptBody {
+    fn new(b: &BodyScript) -> Option<Self> {
+        let mut frames = VecDeque::new();
+        let mut n = 0u64;
+        for c in &b.chunks {
+            n += c.len() as u64;
+            frames.push_back(Frame::data(Bytes::from(c.clone())));
+        }
+        if let Some(t) = &b.trailers {
+            frames.push_back(Frame::trailers(mk_headers(t)?));
+        }
+        Some(ScriptBody { frames, remaining_data: n })
+    }
+}
+impl Body for ScriptBody {
+    type Data = Bytes;
+    type Error = std::convert::Infallible;
+    fn poll_frame(mut self: Pin<&mut Self>, _cx: &mut Context<'_>) -> Poll<Option<Result<Frame<Bytes>, Self::Error>>> {
+        match self.frames.pop_front() {
+            Some(f) => {
+                if let Some(d) = f.data_ref() {
+                    self.remaining_data -= d.len() as u64;
+                }
+                Poll::Ready(Some(Ok(f)))
+            }
+            None => Poll::Ready(None),
+        }
+    }
+    fn is_end_stream(&self) -> bool {
+        self.frames.is_empty()
+    }
+    fn size_hint(&self) -> SizeHint {
+        SizeHint::with_exact(self.remaining_data)
+    }
+}
+
+/// Drain any body: `nchunks chunk* (notr | tr hdrs)`; more than one trailers frame, data after
+/// trailers or a pending poll are reported literally so they cannot be mistaken for the script.
+fn drain<B: Body<Data = Bytes> + Unpin>(mut b: B) -> String
+where
+    B::Error: std::fmt::Debug,
+{
+    let mut cx = Context::from_waker(Waker::noop());
+    let mut chunks: Vec<String> = Vec::new();
+    let mut trailers: Option<String> = None;
+    let mut odd = String::new();
+    for _ in 0..10_000 {
+        match Pin::new(&mut b).poll_frame(&mut cx) {
+            Poll::Pending => {
+                odd.push_str(" pending");
+                break;
+            }
+            Poll::Ready(None) => break,
+            Poll::Ready(Some(Err(_))) => {
+                odd.push_str(" bodyerr");
+                break;
+            }
+            Poll::Ready(Some(Ok(f))) => {
+                if f.is_data() {
+                    if trailers.is_some() {
+                        odd.push_str(" data-after-trailers");
+                    }
+                    chunks.push(hex(&f.into_data().ok().unwrap()));
+                } else if f.is_trailers() {
+                    if trailers.is_some() {
+                        odd.push_str(" second-trailers");
+                    }
+                    trailers = Some(show_headers(&f.into_trailers().ok().unwrap()));
+                }
+            }
+        }
+    }
+    let mut s = chunks.len().to_string();
+    for c in chunks {
+        s.push(' ');
+        s.push_str(&c);
+    }
+    match trailers {
+        None => s.push_str(" notr"),
+        Some(t) => {
+            s.push_str(" tr ");
+            s.push_str(&t);
+        }
+    }
+    s.push_str(&odd);
+    s
+}
+
+#[derive(Debug)]
+struct InnerErr(u32);
+
+type Log = Arc<Mutex<Vec<String>>>;
+
+/// The wrapped service: records what it receives, answers from the per-call script.
+struct Recorder {
+    log: Log,
+    calls: Arc<Mutex<usize>>,
+    resps: Arc<Vec<Resp>>,
+    ready: Arc<Vec<u32>>,
+    cur: Arc<Mutex<usize>>,
+}
+impl Service<http::Request<ScriptBody>> for Recorder {
+    type Response = http::Response<ScriptBody>;
+    type Error = InnerErr;
+    type Future = std::future::Ready<Result<Self::Response, Self::Error>>;
+    fn poll_ready(&mut self, _cx: &mut Context<'_>) -> Poll<Result<(), Self::Error>> {
+        match self.ready[*self.cur.lock().unwrap()] {
+            0 => Poll::Ready(Ok(())),
+            1 => Poll::Pending,
+            n => Poll::Ready(Err(InnerErr(n - 2))),
+        }
+    }
+    fn call(&mut self, req: http::Request<ScriptBody>) -> Self::Future {
+        *self.calls.lock().unwrap() += 1;
+        let (parts, body) = req.into_parts();
+        let line = format!(
+            "inner {} {} {} {} {} {}",
+            hex(parts.method.as_str().as_bytes()),
+            version_tok(parts.version),
+            hex(parts.uri.to_string().as_bytes()),
+            show_headers(&parts.headers),
+            show_ext(&parts.extensions),
+            drain(body)
+        );
+        self.log.lock().unwrap().push(line);
+        let idx = *self.cur.lock().unwrap();
+        let r = match &self.resps[idx] {
+            Resp::E(n) => Err(InnerErr(*n)),
+            Resp::R { status, version, hdrs, ext, body } => {
+                let mut res = http::Response::new(ScriptBody::new(body).expect("resp body"));
+                *res.status_mut() = http::StatusCode::from_u16(*status).expect("status");
+                *res.version_mut() = version_of(*version).expect("version");
+                *res.headers_mut() = mk_headers(hdrs).expect("resp headers");
+                *res.extensions_mut() = mk_ext(ext);
+                Ok(res)
+            }
+        };
+        std::future::ready(r)
+    }
+}
+
+fn code_of(n: i32) -> Code {
+    Code::from_i32(n)
+}
+
+fn mk_status(r: &Rej) -> Status {
+    let msg = String::from_utf8(r.msg.clone()).expect("status message must be UTF-8");
+    let md = MetadataMap::from_headers(mk_headers(&r.md).expect("status metadata"));
+    let mut st = match r.ctor % 4 {
+        0 => {
+            let mut st = Status::new(code_of(r.code), msg);
+            if !r.details.is_empty() {
+                st = Status::with_details(code_of(r.code), st.message().to_string(), Bytes::from(r.details.clone()));
+            }
+            *st.metadata_mut() = md;
+            st
+        }
+        1 => Status::with_details_and_metadata(code_of(r.code), msg, Bytes::from(r.details.clone()), md),
+        2 => {
+            if r.details.is_empty() {
+                Status::with_metadata(code_of(r.code), msg, md)
+            } else {
+                Status::with_details_and_metadata(code_of(r.code), msg, Bytes::from(r.details.clone()), md)
+            }
+        }
+        _ => {
+            let st = Status::with_details_and_metadata(code_of(r.code), msg, Bytes::from(r.details.clone()), md);
+            st.clone()
+        }
+    };
+    if r.src {
+        st.set_source(Arc::new(std::io::Error::new(std::io::ErrorKind::Other, "source")));
+    }
+    st
+}
+
+fn apply_op(op: &Op, count: usize, req: tonic::Request<()>) -> tonic::Request<()> {
+    let raw = |req: tonic::Request<()>, f: &dyn Fn(&mut HeaderMap)| {
+        let (md, ext, ()) = req.into_parts();
+        let mut h = md.into_headers();
+        f(&mut h);
+        tonic::Request::from_parts(MetadataMap::from_headers(h), ext, ())
+    };
+    let hv = |v: &Vec<u8>, s: bool| {
+        let mut val = HeaderValue::from_bytes(v).expect("op value");
+        val.set_sensitive(s);
+        val
+    };
+    let mut req = req;
+    match op {
+        Op::HIns(n, v, s) => raw(req, &|h| {
+            h.insert(HeaderName::from_bytes(n).expect("op name"), hv(v, *s));
+        }),
+        Op::HApp(n, v, s) => raw(req, &|h| {
+            h.append(HeaderName::from_bytes(n).expect("op name"), hv(v, *s));
+        }),
+        Op::HRem(n) => raw(req, &|h| {
+            h.remove(HeaderName::from_bytes(n).expect("op name"));
+        }),
+        Op::MIns(n, v) => {
+            let k = MetadataKey::<tonic::metadata::Ascii>::from_bytes(n).expect("ascii key");
+            let val = MetadataValue::try_from(&v[..]).expect("ascii value");
+            req.metadata_mut().insert(k, val);
+            req
+        }
+        Op::MApp(n, v) => {
+            let k = MetadataKey::<tonic::metadata::Ascii>::from_bytes(n).expect("ascii key");
+            let val = MetadataValue::try_from(&v[..]).expect("ascii value");
+            req.metadata_mut().append(k, val);
+            req
+        }
+        Op::MRem(n) => {
+            let k = MetadataKey::<tonic::metadata::Ascii>::from_bytes(n).expect("ascii key");
+            req.metadata_mut().remove(k);
+            req
+        }
+        Op::BIns(n, v) => {
+            let k = MetadataKey::<tonic::metadata::Binary>::from_bytes(n).expect("bin key");
+            req.metadata_mut().insert_bin(k, MetadataValue::from_bytes(v));
+            req
+        }
+        Op::BApp(n, v) => {
+            let k = MetadataKey::<tonic::metadata::Binary>::from_bytes(n).expect("bin key");
+            req.metadata_mut().append_bin(k, MetadataValue::from_bytes(v));
+            req
+        }
+        Op::BRem(n) => {
+            let k = MetadataKey::<tonic::metadata::Binary>::from_bytes(n).expect("bin key");
+            req.metadata_mut().remove_bin(k);
+            req
+        }
+        Op::Clear => {
+            req.metadata_mut().clear();
+            req
+        }
+        Op::Cnt(n) => raw(req, &|h| {
+            h.insert(
+                HeaderName::from_bytes(n).expect("op name"),
+                HeaderValue::from_str(&count.to_string()).unwrap(),
+            );
+        }),
+        Op::XSet(id, v) => {
+            ext_set(req.extensions_mut(), *id, v.clone());
+            req
+        }
+        Op::XRm(id) => {
+            ext_rm(req.extensions_mut(), *id);
+            req
+        }
+        Op::XClear => {
+            req.extensions_mut().clear();
+            req
+        }
+    }
+}
+
+fn show_status_fields(st: &Status) -> String {
+    format!(
+        "{} {} {} {}",
+        i32::from(st.code()),
+        hex(st.message().as_bytes()),
+        hex(st.details()),
+        show_headers(&st.metadata().clone().into_headers())
+    )
+}
+
+fn ready<F: std::future::Future + Unpin>(mut f: F) -> Option<F::Output> {
+    let mut cx = Context::from_waker(Waker::noop());
+    match Pin::new(&mut f).poll(&mut cx) {
+        Poll::Ready(v) => Some(v),
+        Poll::Pending => None,
+    }
+}
+
+pub fn execute(case: &str) -> String {
+    if case.starts_with("client ") {
+        return execute_client(case);
+    }
+    if case.starts_with("routed ") {
+        return execute_routed(case);
+    }
+    let c = match parse(case) {
+        Some(c) => c,
+        None => return "bad-case".into(),
+    };
+    let log: Log = Arc::new(Mutex::new(Vec::new()));
+    let calls = Arc::new(Mutex::new(0usize));
+    let cur = Arc::new(Mutex::new(0usize));
+    let resps: Arc<Vec<Resp>> = Arc::new(c.calls.iter().map(|k| k.resp.clone()).collect());
+    let readiness: Arc<Vec<u32>> = Arc::new(c.calls.iter().map(|k| k.ready).collect());
+    let inner = Recorder { log: log.clone(), calls: calls.clone(), resps, ready: readiness, cur: cur.clone() };
+
+    // the scripted interceptor: FnMut with a call counter as its state
+    let scripts = c.scripts.clone();
+    let ilog = log.clone();
+    let mut count = 0usize;
+    let interceptor = move |req: tonic::Request<()>| -> Result<tonic::Request<()>, Status> {
+        let mine = count;
+        count += 1;
+        ilog.lock().unwrap().push(format!(
+            "isaw {} {}",
+            show_headers(&req.metadata().clone().into_headers()),
+            show_ext(req.extensions())
+        ));
+        if scripts.is_empty() {
+            ilog.lock().unwrap().push(format!(
+                "iret {} {}",
+                show_headers(&req.metadata().clone().into_headers()),
+                show_ext(req.extensions())
+            ));
+            return Ok(req);
+        }
+        let sc = &scripts[mine % scripts.len()];
+        let mut req = req;
+        for op in &sc.ops {
+            req = apply_op(op, mine, req);
+        }
+        match &sc.rej {
+            None => {
+                ilog.lock().unwrap().push(format!(
+                    "iret {} {}",
+                    show_headers(&req.metadata().clone().into_headers()),
+                    show_ext(req.extensions())
+                ));
+                Ok(req)
+            }
+            Some(r) => {
+                let st = mk_status(r);
+                ilog.lock().unwrap().push(format!("irej {}", show_status_fields(&st)));
+                Err(st)
+            }
+        }
+    };
+
+    // Box the closure so that both construction paths have one type.
+    let boxed: Box<dyn FnMut(tonic::Request<()>) -> Result<tonic::Request<()>, Status> + Send> = Box::new(interceptor);
+    let shared = SharedIcpt(Arc::new(Mutex::new(boxed)));
+    let mut svc: InterceptedService<Recorder, SharedIcpt> = match c.via.as_str() {
+        "layer" => InterceptorLayer::new(shared).layer(inner),
+        _ => InterceptedService::new(inner, shared),
+    };
+
+    for (idx, k) in c.calls.iter().enumerate() {
+        *cur.lock().unwrap() = idx;
+        let before = *calls.lock().unwrap();
+        let body = match ScriptBody::new(&k.body) {
+            Some(b) => b,
+            None => return "bad-case".into(),
+        };
+        let mut req = http::Request::new(body);
+        let (m, v, u, h) = match (
+            http::Method::from_bytes(&k.method).ok(),
+            version_of(k.version),
+            std::str::from_utf8(&k.uri).ok().and_then(|s| s.parse::<http::Uri>().ok()),
+            mk_headers(&k.hdrs),
+        ) {
+            (Some(m), Some(v), Some(u), Some(h)) => (m, v, u, h),
+            _ => return "bad-case".into(),
+        };
+        *req.method_mut() = m;
+        *req.version_mut() = v;
+        *req.uri_mut() = u;
+        *req.headers_mut() = h;
+        *req.extensions_mut() = mk_ext(&k.ext);
+
+        let mut cx = Context::from_waker(Waker::noop());
+        match svc.poll_ready(&mut cx) {
+            Poll::Ready(Ok(())) => {}
+            Poll::Pending => {
+                // a tower caller does not call a service that is not ready
+                log.lock().unwrap().push("notready pending".into());
+                continue;
+            }
+            Poll::Ready(Err(InnerErr(n))) => {
+                log.lock().unwrap().push(format!("notready err {}", n));
+                continue;
+            }
+        }
+        let fut = Box::pin(svc.call(req));
+        // everything the future needs has happened synchronously in `call` for the accept
+        // path; the reject path builds the response on first poll
+        let after_call = *calls.lock().unwrap();
+        let out = ready(fut);
+        let after = *calls.lock().unwrap();
+        if after == before {
+            log.lock().unwrap().push("noinner".into());
+        } else if after != before + 1 || after_call != after {
+            log.lock().unwrap().push(format!("inner-calls {}", after - before));
+        }
+        let line = match out {
+            None => "out-pending".to_string(),
+            Some(Err(InnerErr(n))) => format!("outerr {}", n),
+            Some(Ok(res)) => {
+                let (parts, body) = res.into_parts();
+                let eos = body.is_end_stream();
+                let sh = body.size_hint();
+                format!(
+                    "out {} {} {} {} {} {} {} {}",
+                    parts.status.as_u16(),
+                    version_tok(parts.version),
+                    show_headers(&parts.headers),
+                    show_ext(&parts.extensions),
+                    if eos { 1 } else { 0 },
+                    sh.lower(),
+                    opt_tok(sh.upper().map(|x| x as u128)),
+                    drain(Box::pin(body))
+                )
+            }
+        };
+        log.lock().unwrap().push(line);
+    }
+    let mut out = log.lock().unwrap().join(" ");
+    if !out.is_empty() {
+        out.push(' ');
+    }
+    out.push_str(&format!("calls {}", *calls.lock().unwrap()));
+    out
+}
+
+/// `Interceptor` is implemented for `FnMut`; the layer needs `Clone`, so share the closure.
+#[derive(Clone)]
+struct SharedIcpt(Arc<Mutex<Box<dyn FnMut(tonic::Request<()>) -> Result<tonic::Request<()>, Status> + Send>>>);
+impl tonic::service::Interceptor for SharedIcpt {
+    fn call(&mut self, request: tonic::Request<()>) -> Result<tonic::Request<()>, Status> {
+        (self.0.lock().unwrap())(request)
+    }
+}
+
+// ---------------------------------------------------------------------------------------------
+// client kind: tonic::client::Grpc<InterceptedService<Mock, F>>::server_streaming
+//
+// case  := client via nscripts script* ncalls ccall*
+// ccall := origin-prefix origin-path origin-has-query path hdrs ext msg rhdrs rext
+// observed per call: isaw.. (iret..|irej..) (inner..|noinner)
+//                    (cok hdrs xext | cerr code msg details hdrs | cpending), then `calls n`
+
+#[derive(Clone, Debug)]
+struct CCall {
+    prefix: Vec<u8>,
+    opath: Vec<u8>,
+    oquery: bool,
+    path: Vec<u8>,
+    hdrs: H,
+    ext: Vec<(u8, Vec<u8>)>,
+    msg: Vec<u8>,
+    rhdrs: H,
+    rext: Vec<(u8, Vec<u8>)>,
+}
+
+struct CCase {
+    via: String,
+    scripts: Vec<Script>,
+    calls: Vec<CCall>,
+}
+
+fn parse_scripts(t: &mut Toks) -> Option<Vec<Script>> {
+    let ns: usize = t.num()?;
+    let mut scripts = Vec::new();
+    for _ in 0..ns {
+        let nops: usize = t.num()?;
+        let mut ops = Vec::new();
+        for _ in 0..nops {
+            ops.push(t.op()?);
+        }
+        let rej = match t.next()? {
+            "ok" => None,
+            "rej" => Some(Rej { ctor: t.num()?, code: t.num()?, msg: t.bytes()?, details: t.bytes()?, src: t.flag()?, md: t.h()? }),
+            _ => return None,
+        };
+        scripts.push(Script { ops, rej });
+    }
+    Some(scripts)
+}
+
+fn parse_client(case: &str) -> Option<CCase> {
+    let mut t = Toks { t: case.split(' ').filter(|s| !s.is_empty()).collect(), i: 0 };
+    if t.next()? != "client" {
+        return None;
+    }
+    let via = t.next()?.to_string();
+    let scripts = parse_scripts(&mut t)?;
+    let nc: usize = t.num()?;
+    let mut calls = Vec::new();
+    for _ in 0..nc {
+        calls.push(CCall {
+            prefix: t.bytes()?,
+            opath: t.bytes()?,
+            oquery: t.flag()?,
+            path: t.bytes()?,
+            hdrs: t.h()?,
+            ext: t.ext()?,
+            msg: t.bytes()?,
+            rhdrs: t.h()?,
+            rext: t.ext()?,
+        });
+    }
+    if t.i != t.t.len() {
+        return None;
+    }
+    Some(CCase { via, scripts, calls })
+}
+
+fn render_client(c: &CCase) -> String {
+    let mut o: Vec<String> = vec!["client".into(), c.via.clone(), c.scripts.len().to_string()];
+    for s in &c.scripts {
+        o.push(s.ops.len().to_string());
+        for op in &s.ops {
+            r_op(op, &mut o);
+        }
+        match &s.rej {
+            None => o.push("ok".into()),
+            Some(r) => {
+                o.extend(["rej".into(), r.ctor.to_string(), r.code.to_string(), hex(&r.msg), hex(&r.details), if r.src { "1".into() } else { "0".into() }]);
+                r_h(&r.md, &mut o);
+            }
+        }
+    }
+    o.push(c.calls.len().to_string());
+    for k in &c.calls {
+        o.extend([hex(&k.prefix), hex(&k.opath), if k.oquery { "1".into() } else { "0".into() }, hex(&k.path)]);
+        r_h(&k.hdrs, &mut o);
+        r_ext(&k.ext, &mut o);
+        o.push(hex(&k.msg));
+        r_h(&k.rhdrs, &mut o);
+        r_ext(&k.rext, &mut o);
+    }
+    o.join(" ")
+}
+
+#[derive(Default, Clone)]
+struct RawCodec;
+struct RawEnc;
+struct RawDec;
+impl tonic::codec::Codec for RawCodec {
+    type Encode = Vec<u8>;
+    type Decode = Vec<u8>;
+    type Encoder = RawEnc;
+    type Decoder = RawDec;
+    fn encoder(&mut self) -> RawEnc {
+        RawEnc
+    }
+    fn decoder(&mut self) -> RawDec {
+        RawDec
+    }
+}
+impl tonic::codec::Encoder for RawEnc {
+    type Item = Vec<u8>;
+    type Error = Status;
+    fn encode(&mut self, item: Vec<u8>, dst: &mut tonic::codec::EncodeBuf<'_>) -> Result<(), Status> {
+        use bytes::BufMut;
+        dst.put_slice(&item);
+        Ok(())
+    }
+}
+impl tonic::codec::Decoder for RawDec {
+    type Item = Vec<u8>;
+    type Error = Status;
+    fn decode(&mut self, src: &mut tonic::codec::DecodeBuf<'_>) -> Result<Option<Vec<u8>>, Status> {
+        use bytes::Buf;
+        let n = src.remaining();
+        let mut v = vec![0u8; n];
+        src.copy_to_slice(&mut v);
+        Ok(Some(v))
+    }
+}
+
+impl std::fmt::Display for InnerErr {
+    fn fmt(&self, f: &mut std::fmt::Formatter<'_>) -> std::fmt::Result {
+        write!(f, "inner error {}", self.0)
+    }
+}
+impl std::error::Error for InnerErr {}
+
+/// The transport under the client-side interceptor: records the request, answers trailers-only.
+struct ClientMock {
+    log: Log,
+    calls: Arc<Mutex<usize>>,
+    resps: Arc<Vec<(H, Vec<(u8, Vec<u8>)>)>>,
+    cur: Arc<Mutex<usize>>,
+}
+impl Service<http::Request<tonic::body::Body>> for ClientMock {
+    type Response = http::Response<ScriptBody>;
+    type Error = InnerErr;
+    type Future = std::future::Ready<Result<Self::Response, Self::Error>>;
+    fn poll_ready(&mut self, _cx: &mut Context<'_>) -> Poll<Result<(), Self::Error>> {
+        Poll::Ready(Ok(()))
+    }
+    fn call(&mut self, req: http::Request<tonic::body::Body>) -> Self::Future {
+        *self.calls.lock().unwrap() += 1;
+        let (parts, body) = req.into_parts();
+        let line = format!(
+            "inner {} {} {} {} {} {}",
+            hex(parts.method.as_str().as_bytes()),
+            version_tok(parts.version),
+            hex(parts.uri.to_string().as_bytes()),
+            show_headers(&parts.headers),
+            show_ext(&parts.extensions),
+            drain(body)
+        );
+        self.log.lock().unwrap().push(line);
+        let idx = *self.cur.lock().unwrap();
+        let (h, x) = &self.resps[idx];
+        let mut res = http::Response::new(ScriptBody::new(&BodyScript { chunks: vec![], trailers: None }).unwrap());
+        *res.version_mut() = http::Version::HTTP_2;
+        *res.headers_mut() = mk_headers(h).expect("resp headers");
+        *res.extensions_mut() = mk_ext(x);
+        std::future::ready(Ok(res))
+    }
+}
+
+fn block_on<F: std::future::Future>(f: F) -> Option<F::Output> {
+    let mut f = Box::pin(f);
+    let mut cx = Context::from_waker(Waker::noop());
+    for _ in 0..1000 {
+        if let Poll::Ready(v) = f.as_mut().poll(&mut cx) {
+            return Some(v);
+        }
+    }
+    None
+}
+
+fn make_interceptor(scripts: Vec<Script>, ilog: Log, known_only: bool) -> SharedIcpt {
+    let sx = move |x: &http::Extensions| if known_only { show_ext_known(x) } else { show_ext(x) };
+    let mut count = 0usize;
+    let interceptor = move |req: tonic::Request<()>| -> Result<tonic::Request<()>, Status> {
+        let mine = count;
+        count += 1;
+        ilog.lock().unwrap().push(format!(
+            "isaw {} {}",
+            show_headers(&req.metadata().clone().into_headers()),
+            sx(req.extensions())
+        ));
+        let mut req = req;
+        let mut rej = None;
+        if !scripts.is_empty() {
+            let sc = &scripts[mine % scripts.len()];
+            for op in &sc.ops {
+                req = apply_op(op, mine, req);
+            }
+            rej = sc.rej.clone();
+        }
+        match rej {
+            None => {
+                ilog.lock().unwrap().push(format!(
+                    "iret {} {}",
+                    show_headers(&req.metadata().clone().into_headers()),
+                    sx(req.extensions())
+                ));
+                Ok(req)
+            }
+            Some(r) => {
+                let st = mk_status(&r);
+                ilog.lock().unwrap().push(format!("irej {}", show_status_fields(&st)));
+                Err(st)
+            }
+        }
+    };
+    let boxed: Box<dyn FnMut(tonic::Request<()>) -> Result<tonic::Request<()>, Status> + Send> = Box::new(interceptor);
+    SharedIcpt(Arc::new(Mutex::new(boxed)))
+}
+
+fn execute_client(case: &str) -> String {
+    let c = match parse_client(case) {
+        Some(c) => c,
+        None => return "bad-case".into(),
+    };
+    let log: Log = Arc::new(Mutex::new(Vec::new()));
+    let calls = Arc::new(Mutex::new(0usize));
+    let cur = Arc::new(Mutex::new(0usize));
+    let resps = Arc::new(c.calls.iter().map(|k| (k.rhdrs.clone(), k.rext.clone())).collect::<Vec<_>>());
+    let shared = make_interceptor(c.scripts.clone(), log.clone(), false);
+    // one client per origin would reset the interceptor; keep one service and re-wrap the
+    // (cheaply cloneable) handle: InterceptedService is Clone when both parts are.
+    let mock = SharedMock(Arc::new(Mutex::new(ClientMock { log: log.clone(), calls: calls.clone(), resps, cur: cur.clone() })));
+    let svc: InterceptedService<SharedMock, SharedIcpt> = match c.via.as_str() {
+        "layer" => InterceptorLayer::new(shared).layer(mock),
+        _ => InterceptedService::new(mock, shared),
+    };
+    for (idx, k) in c.calls.iter().enumerate() {
+        *cur.lock().unwrap() = idx;
+        let before = *calls.lock().unwrap();
+        let mut origin = k.prefix.clone();
+        origin.extend_from_slice(&k.opath);
+        if k.oquery {
+            origin.extend_from_slice(b"?q=1");
+        }
+        let origin: http::Uri = match std::str::from_utf8(&origin).ok().and_then(|s| s.parse().ok()) {
+            Some(u) => u,
+            None => return "bad-case".into(),
+        };
+        let path: http::uri::PathAndQuery = match std::str::from_utf8(&k.path).ok().and_then(|s| s.parse().ok()) {
+            Some(p) => p,
+            None => return "bad-case".into(),
+        };
+        let md = match mk_headers(&k.hdrs) {
+            Some(h) => MetadataMap::from_headers(h),
+            None => return "bad-case".into(),
+        };
+        let mut client = tonic::client::Grpc::with_origin(svc.clone(), origin);
+        let mut req = tonic::Request::new(k.msg.clone());
+        *req.metadata_mut() = md;
+        *req.extensions_mut() = mk_ext(&k.ext);
+        let res = block_on(async {
+            client.ready().await.map_err(|_| Status::internal("not ready"))?;
+            client.server_streaming::<Vec<u8>, Vec<u8>, RawCodec>(req, path, RawCodec).await
+        });
+        let after = *calls.lock().unwrap();
+        if after == before {
+            log.lock().unwrap().push("noinner".into());
+        } else if after != before + 1 {
+            log.lock().unwrap().push(format!("inner-calls {}", after - before));
+        }
+        let line = match res {
+            None => "cpending".to_string(),
+            Some(Ok(resp)) => {
+                let (md, _stream, ext) = resp.into_parts();
+                format!("cok {} {}", show_headers(&md.into_headers()), show_ext(&ext))
+            }
+            Some(Err(st)) => format!("cerr {}", show_status_fields(&st)),
+        };
+        log.lock().unwrap().push(line);
+    }
+    let mut out = log.lock().unwrap().join(" ");
+    if !out.is_empty() {
+        out.push(' ');
+    }
+    out.push_str(&format!("calls {}", *calls.lock().unwrap()));
+    out
+}
+
+#[derive(Clone)]
+struct SharedMock(Arc<Mutex<ClientMock>>);
+impl Service<http::Request<tonic::body::Body>> for SharedMock {
+    type Response = http::Response<ScriptBody>;
+    type Error = InnerErr;
+    type Future = std::future::Ready<Result<Self::Response, Self::Error>>;
+    fn poll_ready(&mut self, cx: &mut Context<'_>) -> Poll<Result<(), Self::Error>> {
+        self.0.lock().unwrap().poll_ready(cx)
+    }
+    fn call(&mut self, req: http::Request<tonic::body::Body>) -> Self::Future {
+        self.0.lock().unwrap().call(req)
+    }
+}
+
+// ---------------------------------------------------------------------------------------------
+// routed kind: Routes::new(InterceptedService<Named, F>) (+ a second, unrelated service), i.e. the
+// composition a generated `XServer::with_interceptor` value goes through in `Server::add_service`.
+// Same grammar as the plain kinds; the URI of each call is `path[?query]`, responses are `r` only.
+// observed per call: (`isaw..` (`iret..`|`irej..`) | `noicpt`) (`inner..`|`noinner`) [`other`] `out..`
+// (extension lists show only the harness's own marker types: axum adds private ones).
+
+const ROUTED_NAME: &str = "pkg.Svc";
+
+fn show_ext_known(x: &http::Extensions) -> String {
+    let full = show_ext(x);
+    let mut it = full.splitn(3, ' ');
+    let _total = it.next();
+    let k = it.next().unwrap_or("0");
+    let rest = it.next();
+    match rest {
+        Some(r) => format!("{} {} {}", k, k, r),
+        None => format!("{} {}", k, k),
+    }
+}
+
+#[derive(Clone)]
+struct NamedRecorder {
+    log: Log,
+    calls: Arc<Mutex<usize>>,
+    resps: Arc<Vec<Resp>>,
+    cur: Arc<Mutex<usize>>,
+}
+impl tonic::server::NamedService for NamedRecorder {
+    const NAME: &'static str = ROUTED_NAME;
+}
+impl Service<http::Request<tonic::body::Body>> for NamedRecorder {
+    type Response = http::Response<tonic::body::Body>;
+    type Error = std::convert::Infallible;
+    type Future = std::future::Ready<Result<Self::Response, Self::Error>>;
+    fn poll_ready(&mut self, _cx: &mut Context<'_>) -> Poll<Result<(), Self::Error>> {
+        Poll::Ready(Ok(()))
+    }
+    fn call(&mut self, req: http::Request<tonic::body::Body>) -> Self::Future {
+        *self.calls.lock().unwrap() += 1;
+        let (parts, body) = req.into_parts();
+        let line = format!(
+            "inner {} {} {} {} {} {}",
+            hex(parts.method.as_str().as_bytes()),
+            version_tok(parts.version),
+            hex(parts.uri.to_string().as_bytes()),
+            show_headers(&parts.headers),
+            show_ext_known(&parts.extensions),
+            drain(body)
+        );
+        self.log.lock().unwrap().push(line);
+        let idx = *self.cur.lock().unwrap();
+        let res = match &self.resps[idx] {
+            Resp::E(_) => http::Response::new(tonic::body::Body::empty()),
+            Resp::R { status, version, hdrs, ext, body } => {
+                let mut res = http::Response::new(tonic::body::Body::new(ScriptBody::new(body).expect("resp body")));
+                *res.status_mut() = http::StatusCode::from_u16(*status).expect("status");
+                *res.version_mut() = version_of(*version).expect("version");
+                *res.headers_mut() = mk_headers(hdrs).expect("resp headers");
+                *res.extensions_mut() = mk_ext(ext);
+                res
+            }
+        };
+        std::future::ready(Ok(res))
+    }
+}
+
+#[derive(Clone)]
+struct OtherSvc(Log);
+impl tonic::server::NamedService for OtherSvc {
+    const NAME: &'static str = "other.Svc";
+}
+impl Service<http::Request<tonic::body::Body>> for OtherSvc {
+    type Response = http::Response<tonic::body::Body>;
+    type Error = std::convert::Infallible;
+    type Future = std::future::Ready<Result<Self::Response, Self::Error>>;
+    fn poll_ready(&mut self, _cx: &mut Context<'_>) -> Poll<Result<(), Self::Error>> {
+        Poll::Ready(Ok(()))
+    }
+    fn call(&mut self, _req: http::Request<tonic::body::Body>) -> Self::Future {
+        self.0.lock().unwrap().push("other".into());
+        let mut res = http::Response::new(tonic::body::Body::empty());
+        *res.status_mut() = http::StatusCode::IM_A_TEAPOT;
+        std::future::ready(Ok(res))
+    }
+}
+
+fn execute_routed(case: &str) -> String {
+    let c = match parse(case) {
+        Some(c) => c,
+        None => return "bad-case".into(),
+    };
+    let log: Log = Arc::new(Mutex::new(Vec::new()));
+    let calls = Arc::new(Mutex::new(0usize));
+    let cur = Arc::new(Mutex::new(0usize));
+    let resps: Arc<Vec<Resp>> = Arc::new(c.calls.iter().map(|k| k.resp.clone()).collect());
+    let inner = NamedRecorder { log: log.clone(), calls: calls.clone(), resps, cur: cur.clone() };
+    let shared = make_interceptor(c.scripts.clone(), log.clone(), true);
+    let mut routes = match c.via.as_str() {
+        "layer" => tonic::service::Routes::new(InterceptorLayer::new(shared).layer(inner)).add_service(OtherSvc(log.clone())),
+        "builder" => {
+            let mut b = tonic::service::Routes::builder();
+            b.add_service(OtherSvc(log.clone()));
+            b.add_service(InterceptedService::new(inner, shared));
+            b.routes()
+        }
+        _ => tonic::service::Routes::new(InterceptedService::new(inner, shared)).add_service(OtherSvc(log.clone())),
+    };
+    for (idx, k) in c.calls.iter().enumerate() {
+        *cur.lock().unwrap() = idx;
+        let before = *calls.lock().unwrap();
+        let log_before = log.lock().unwrap().len();
+        let body = match ScriptBody::new(&k.body) {
+            Some(b) => b,
+            None => return "bad-case".into(),
+        };
+        let mut req = http::Request::new(body);
+        let (m, v, u, h) = match (
+            http::Method::from_bytes(&k.method).ok(),
+            version_of(k.version),
+            std::str::from_utf8(&k.uri).ok().and_then(|s| s.parse::<http::Uri>().ok()),
+            mk_headers(&k.hdrs),
+        ) {
+            (Some(m), Some(v), Some(u), Some(h)) => (m, v, u, h),
+            _ => return "bad-case".into(),
+        };
+        *req.method_mut() = m;
+        *req.version_mut() = v;
+        *req.uri_mut() = u;
+        *req.headers_mut() = h;
+        *req.extensions_mut() = mk_ext(&k.ext);
+        let mut cx = Context::from_waker(Waker::noop());
+        match Service::<http::Request<ScriptBody>>::poll_ready(&mut routes, &mut cx) {
+            Poll::Ready(Ok(())) => {}
+            _ => {
+                log.lock().unwrap().push("not-ready".into());
+                continue;
+            }
+        }
+        let out = block_on(routes.call(req));
+        let after = *calls.lock().unwrap();
+        {
+            let mut l = log.lock().unwrap();
+            let icpt_ran = l.len() > log_before && l[log_before].starts_with("isaw");
+            if !icpt_ran {
+                l.insert(log_before, "noicpt".into());
+            }
+            if after == before {
+                // keep the order: decision, then inner/noinner
+                let pos = l.len() - l[log_before..].iter().rev().take_while(|x| x.as_str() == "other").count();
+                l.insert(pos, "noinner".into());
+            } else if after != before + 1 {
+                l.push(format!("inner-calls {}", after - before));
+            }
+        }
+        let line = match out {
+            None => "out-pending".to_string(),
+            Some(Err(e)) => match e {},
+            Some(Ok(res)) => {
+                let (parts, body) = res.into_parts();
+                let eos = body.is_end_stream();
+                let sh = body.size_hint();
+                format!(
+                    "out {} {} {} {} {} {} {} {}",
+                    parts.status.as_u16(),
+                    version_tok(parts.version),
+                    show_headers(&parts.headers),
+                    show_ext_known(&parts.extensions),
+                    if eos { 1 } else { 0 },
+                    sh.lower(),
+                    opt_tok(sh.upper().map(|x| x as u128)),
+                    drain(body)
+                )
+            }
+        };
+        log.lock().unwrap().push(line);
+    }
+    let mut out = log.lock().unwrap().join(" ");
+    if !out.is_empty() {
+        out.push(' ');
+    }
+    out.push_str(&format!("calls {}", *calls.lock().unwrap()));
+    out
+}
+
+// ---------------------------------------------------------------------------------------------
+// generators
+
+const RESERVED: [&str; 6] = ["te", "user-agent", "content-type", "grpc-message", "grpc-message-type", "grpc-status"];
+const ASCII_NAMES: [&str; 16] = [
+    "x-a",
+    "x-b",
+    "x-c",
+    "authorization",
+    "host",
+    "grpc-timeout",
+    "grpc-encoding",
+    "grpc-accept-encoding",
+    "grpc-foo",
+    "X-A",
+    "Content-Type",
+    "TE",
+    "!#$%&'*+-.^_`|~0z",
+    "a",
+    "x-binx",
+    "bin",
+];
+const BIN_NAMES: [&str; 6] = ["x-bin", "trace-bin", "grpc-status-details-bin", "a-bin", "-bin", "X-Trace-BIN"];
+
+fn long_name(rng: &mut Rng) -> Vec<u8> {
+    let n = *rng.pick(&[63usize, 64, 65, 200]);
+    let mut v: Vec<u8> = (0..n).map(|_| b'a' + rng.below(26) as u8).collect();
+    v[0] = b'l';
+    v
+}
+
+fn gen_ascii_name(rng: &mut Rng) -> Vec<u8> {
+    match rng.below(20) {
+        0..=6 => rng.pick(&RESERVED).as_bytes().to_vec(),
+        7..=17 => rng.pick(&ASCII_NAMES).as_bytes().to_vec(),
+        18 => long_name(rng),
+        _ => {
+            let n = rng.range(1, 6) as usize;
+            (0..n).map(|_| *rng.pick(b"abcxyz019-_.")).collect::<Vec<u8>>()
+        }
+    }
+}
+fn is_bin_name(n: &[u8]) -> bool {
+    n.to_ascii_lowercase().ends_with(b"-bin")
+}
+fn gen_bin_name(rng: &mut Rng) -> Vec<u8> {
+    rng.pick(&BIN_NAMES).as_bytes().to_vec()
+}
+fn gen_any_name(rng: &mut Rng) -> Vec<u8> {
+    if rng.chance(1, 4) {
+        gen_bin_name(rng)
+    } else {
+        let mut n = gen_ascii_name(rng);
+        if is_bin_name(&n) {
+            n.push(b'x');
+        }
+        n
+    }
+}
+
+fn gen_value(rng: &mut Rng) -> Vec<u8> {
+    match rng.below(14) {
+        0 => vec![],
+        1 => b"v".to_vec(),
+        2 => b"a b".to_vec(),
+        3 => b"trailers".to_vec(),
+        4 => b"application/grpc".to_vec(),
+        5 => b"AAAA".to_vec(),
+        6 => b"AA==".to_vec(),
+        7 => b"!!!".to_vec(),
+        8 => b"%41%zz%".to_vec(),
+        9 => vec![0x80, 0xff, 0xc3, 0xa9],
+        10 => b"a\tb".to_vec(),
+        11 => {
+            let n = *rng.pick(&[255usize, 256, 300, 1024]);
+            (0..n).map(|_| b'!' + rng.below(90) as u8).collect()
+        }
+        _ => {
+            let n = rng.range(1, 12) as usize;
+            (0..n)
+                .map(|_| {
+                    let b = rng.next() as u8;
+                    if (b >= 32 && b != 127) || b == 9 {
+                        b
+                    } else {
+                        b'.'
+                    }
+                })
+                .collect()
+        }
+    }
+}
+
+/// header list with many repeated names; `focus` names are used with high probability
+fn gen_hdrs(rng: &mut Rng, max: u64, focus: &[Vec<u8>]) -> H {
+    let n = match rng.below(8) {
+        0 => 0,
+        1 => 1,
+        _ => rng.range(1, max.max(1)),
+    };
+    let mut v: Vec<(Vec<u8>, Vec<u8>, bool)> = Vec::new();
+    for _ in 0..n {
+        let name = if !v.is_empty() && rng.chance(2, 5) {
+            let mut nm = rng.pick(&v).0.clone();
+            if rng.chance(1, 4) {
+                nm = nm.to_ascii_uppercase();
+            }
+            nm
+        } else if !focus.is_empty() && rng.chance(1, 2) {
+            rng.pick(focus).clone()
+        } else {
+            gen_any_name(rng)
+        };
+        v.push((name, gen_value(rng), rng.chance(1, 6)));
+    }
+    H(v)
+}
+
+fn gen_ext(rng: &mut Rng) -> Vec<(u8, Vec<u8>)> {
+    let mut v = Vec::new();
+    for id in 0..4u8 {
+        if rng.chance(1, 3) {
+            let n = rng.below(4) as usize;
+            v.push((id, rng.bytes(n)));
+        }
+    }
+    // order of insertion varies
+    if rng.chance(1, 2) {
+        v.reverse();
+    }
+    v
+}
+
+fn gen_body(rng: &mut Rng) -> BodyScript {
+    let n = match rng.below(6) {
+        0 => 0,
+        1 => 1,
+        _ => rng.range(1, 4),
+    };
+    let mut chunks = Vec::new();
+    for _ in 0..n {
+        let len = *rng.pick(&[0usize, 1, 4, 5, 6, 17]);
+        chunks.push(rng.bytes(len));
+    }
+    let trailers = if rng.chance(1, 3) { Some(gen_hdrs(rng, 3, &[b"grpc-status".to_vec()])) } else { None };
+    BodyScript { chunks, trailers }
+}
+
+fn present_names(h: &H) -> Vec<Vec<u8>> {
+    let mut v: Vec<Vec<u8>> = h.0.iter().map(|e| e.0.to_ascii_lowercase()).collect();
+    v.sort();
+    v.dedup();
+    v
+}
+
+fn gen_op(rng: &mut Rng, present: &[Vec<u8>]) -> Op {
+    // 60 %: a name that is present in (one of) the request(s)
+    let pick_name = |rng: &mut Rng, want_bin: Option<bool>| -> Vec<u8> {
+        for _ in 0..8 {
+            let n = if !present.is_empty() && rng.chance(3, 5) {
+                let mut n = rng.pick(present).clone();
+                if rng.chance(1, 5) {
+                    n = n.to_ascii_uppercase();
+                }
+                n
+            } else {
+                gen_any_name(rng)
+            };
+            match want_bin {
+                None => return n,
+                Some(b) if is_bin_name(&n) == b => return n,
+                _ => {}
+            }
+        }
+        match want_bin {
+            Some(true) => b"x-bin".to_vec(),
+            _ => b"x-a".to_vec(),
+        }
+    };
+    match rng.below(20) {
+        0 | 1 => Op::HIns(pick_name(rng, None), gen_value(rng), rng.chance(1, 5)),
+        2 | 3 => Op::HApp(pick_name(rng, None), gen_value(rng), rng.chance(1, 5)),
+        4 | 5 => Op::HRem(pick_name(rng, None)),
+        6 | 7 => Op::MIns(pick_name(rng, Some(false)), gen_value(rng)),
+        8 => Op::MApp(pick_name(rng, Some(false)), gen_value(rng)),
+        9 => Op::MRem(pick_name(rng, Some(false))),
+        10 | 11 => {
+            let n = *rng.pick(&[0usize, 1, 2, 3, 4, 7]);
+            Op::BIns(pick_name(rng, Some(true)), rng.bytes(n))
+        }
+        12 => {
+            let n = *rng.pick(&[0usize, 1, 2, 3, 4, 7]);
+            Op::BApp(pick_name(rng, Some(true)), rng.bytes(n))
+        }
+        13 => Op::BRem(pick_name(rng, Some(true))),
+        14 => {
+            if rng.chance(1, 3) {
+                Op::Clear
+            } else {
+                Op::Cnt(pick_name(rng, Some(false)))
+            }
+        }
+        15 => Op::Cnt(b"x-count".to_vec()),
+        16 | 17 => {
+            let n = rng.below(4) as usize;
+            Op::XSet(rng.below(4) as u8, rng.bytes(n))
+        }
+        18 => Op::XRm(rng.below(4) as u8),
+        _ => {
+            if rng.chance(1, 2) {
+                Op::XClear
+            } else {
+                Op::XRm(rng.below(4) as u8)
+            }
+        }
+    }
+}
+
+const MESSAGES: [&str; 16] = [
+    "",
+    "ok",
+    "Blocked by the interceptor",
+    "a b",
+    "%",
+    "%41",
+    "100% sure?",
+    "h\u{e9}llo \u{2713} \u{1F600}",
+    "line1\nline2\r\ttab\u{0}nul",
+    "\u{7f}del",
+    "\"#<>`?{}",
+    "~!$&'()*+,-./:;=@[\\]^_|",
+    " ",
+    "\u{80}\u{7ff}\u{800}\u{ffff}\u{10000}",
+    "trailing space ",
+    "%%%",
+];
+
+fn gen_message(rng: &mut Rng) -> Vec<u8> {
+    match rng.below(20) {
+        0..=13 => rng.pick(&MESSAGES).as_bytes().to_vec(),
+        14 => (0u8..128).map(|b| b as char).collect::<String>().into_bytes(),
+        15 => "x".repeat(*rng.pick(&[255usize, 256, 1000])).into_bytes(),
+        _ => {
+            let n = rng.range(1, 10);
+            let mut s = String::new();
+            for _ in 0..n {
+                let c = match rng.below(4) {
+                    0 => char::from_u32(rng.below(128) as u32).unwrap(),
+                    1 => char::from_u32(0x80 + rng.below(0x700) as u32).unwrap(),
+                    2 => char::from_u32(0x800 + rng.below(0x5000) as u32).unwrap_or('x'),
+                    _ => *rng.pick(&['%', ' ', '{', '}', 'a', 'Z', '0', '~']),
+                };
+                s.push(c);
+            }
+            s.into_bytes()
+        }
+    }
+}
+
+fn gen_details(rng: &mut Rng) -> Vec<u8> {
+    match rng.below(10) {
+        0..=3 => vec![],
+        4 => vec![0],
+        5 => vec![0xfb, 0xff],
+        6 => vec![0xfb, 0xff, 0xbf],
+        7 => vec![1, 2, 3, 4],
+        _ => {
+            let n = rng.range(1, 40) as usize;
+            rng.bytes(n)
+        }
+    }
+}
+
+fn gen_rej(rng: &mut Rng) -> Rej {
+    let code = match rng.below(20) {
+        0 => 17,
+        1 => 99,
+        2 => 18,
+        _ => rng.below(17) as i32,
+    };
+    let focus: Vec<Vec<u8>> = ["grpc-status", "grpc-message", "grpc-status-details-bin", "content-type", "x-a", "x-bin", "te"]
+        .iter()
+        .map(|s| s.as_bytes().to_vec())
+        .collect();
+    let md = if rng.chance(1, 2) { H(vec![]) } else { gen_hdrs(rng, 5, &focus) };
+    Rej { ctor: rng.below(4) as u8, code, msg: gen_message(rng), details: gen_details(rng), src: rng.chance(1, 5), md }
+}
+
+const METHODS: [&str; 9] = ["POST", "GET", "OPTIONS", "PUT", "DELETE", "HEAD", "CONNECT", "PATCH", "FOO-BAR"];
+const VERSIONS: [u8; 5] = [9, 10, 11, 2, 3];
+const URIS: [&str; 12] = [
+    "/",
+    "/pkg.Service/Method",
+    "/a/b?x=1&y=2",
+    "http://example.com:50051/helloworld.Greeter/SayHello",
+    "https://user@host/p?q",
+    "*",
+    "example.com:443",
+    "/%41%2f?%3f",
+    "http://[::1]:8080/x",
+    "/a//b/../c",
+    "http://example.com",
+    "/very/long/path/segment/segment/segment/segment/segment/segment?with=query&and=more",
+];
+
+fn canon_uri(s: &str) -> Vec<u8> {
+    s.parse::<http::Uri>().expect("generator URIs parse").to_string().into_bytes()
+}
+
+fn gen_resp(rng: &mut Rng) -> Resp {
+    if rng.chance(1, 8) {
+        return Resp::E(rng.below(1000) as u32);
+    }
+    let focus: Vec<Vec<u8>> = ["grpc-status", "content-type", "x-a"].iter().map(|s| s.as_bytes().to_vec()).collect();
+    Resp::R {
+        status: *rng.pick(&[200u16, 200, 200, 204, 404, 503, 100, 999]),
+        version: *rng.pick(&VERSIONS),
+        hdrs: gen_hdrs(rng, 4, &focus),
+        ext: gen_ext(rng),
+        body: gen_body(rng),
+    }
+}
+
+fn gen_call(rng: &mut Rng) -> Call {
+    let focus: Vec<Vec<u8>> = RESERVED.iter().map(|s| s.as_bytes().to_vec()).collect();
+    Call {
+        ready: 0,
+        method: rng.pick(&METHODS).as_bytes().to_vec(),
+        version: *rng.pick(&VERSIONS),
+        uri: canon_uri(*rng.pick(&URIS)),
+        hdrs: gen_hdrs(rng, 9, &focus),
+        ext: gen_ext(rng),
+        body: gen_body(rng),
+        resp: gen_resp(rng),
+    }
+}
+
+fn gen_script(rng: &mut Rng, present: &[Vec<u8>], reject_pct: u64) -> Script {
+    let nops = match rng.below(6) {
+        0 => 0,
+        1 => 1,
+        _ => rng.range(1, 6),
+    };
+    let ops = (0..nops).map(|_| gen_op(rng, present)).collect();
+    let rej = if rng.below(100) < reject_pct { Some(gen_rej(rng)) } else { None };
+    Script { ops, rej }
+}
+
+fn via(rng: &mut Rng) -> String {
+    if rng.chance(1, 2) { "new".into() } else { "layer".into() }
+}
+
+fn simple_call(hdrs: H) -> Call {
+    Call {
+        ready: 0,
+        method: b"POST".to_vec(),
+        version: 2,
+        uri: canon_uri("/pkg.Service/Method"),
+        hdrs,
+        ext: vec![(1, vec![7])],
+        body: BodyScript { chunks: vec![vec![0, 0, 0, 0, 1, 9]], trailers: None },
+        resp: Resp::R {
+            status: 200,
+            version: 2,
+            hdrs: H(vec![(b"content-type".to_vec(), b"application/grpc".to_vec(), false)]),
+            ext: vec![],
+            body: BodyScript {
+                chunks: vec![vec![0, 0, 0, 0, 0]],
+                trailers: Some(H(vec![(b"grpc-status".to_vec(), b"0".to_vec(), false)])),
+            },
+        },
+    }
+}
+
+fn hb(n: &str, v: &str) -> (Vec<u8>, Vec<u8>, bool) {
+    (n.as_bytes().to_vec(), v.as_bytes().to_vec(), false)
+}
+
+fn no_encoding_names(h: &mut H) {
+    h.0.retain(|e| e.0.to_ascii_lowercase() != b"grpc-encoding");
+}
+
+fn gen_client_case(rng: &mut Rng) -> CCase {
+    let ncalls = match rng.below(3) {
+        0 => 1,
+        _ => rng.range(1, 3),
+    };
+    let mut calls = Vec::new();
+    for _ in 0..ncalls {
+        let focus: Vec<Vec<u8>> = RESERVED.iter().map(|s| s.as_bytes().to_vec()).collect();
+        let opath = rng.pick(&["", "", "/", "/base", "/base/", "/a/b"]).as_bytes().to_vec();
+        let oquery = !opath.is_empty() && rng.chance(1, 4);
+        let mut rh: Vec<(Vec<u8>, Vec<u8>, bool)> = Vec::new();
+        rh.push(hb("grpc-status", *rng.pick(&["0", "0", "0", "5", "16", "99", "x", "", "00", "1 "])));
+        if rng.chance(1, 6) {
+            rh.push(hb("grpc-status", "13"));
+        }
+        if rng.chance(1, 2) {
+            rh.push(hb("grpc-message", *rng.pick(&["", "hello", "a%20b", "%E2%9C%93", "100%", "%zz", "%4", "%", "%41%42c", "%e2%9c%93"])));
+        }
+        if rng.chance(1, 3) {
+            rh.push(hb("grpc-status-details-bin", *rng.pick(&["", "AAAA", "AQID", "AA==", "AA", "+/8"])));
+        }
+        for _ in 0..rng.below(3) {
+            rh.push(hb(*rng.pick(&["x-a", "x-bin", "content-type", "grpc-foo", "te", "x-a"]), *rng.pick(&["1", "AAAA", "application/grpc", ""])));
+        }
+        if rng.chance(1, 10) {
+            rh.push(hb("grpc-encoding", "identity"));
+        }
+        if rng.chance(1, 2) {
+            rh.reverse();
+        }
+        let n = rng.below(20) as usize;
+        calls.push(CCall {
+            prefix: rng.pick(&["http://example.com", "https://h:50051", "http://[::1]:8080"]).as_bytes().to_vec(),
+            opath,
+            oquery,
+            path: rng.pick(&["/pkg.Svc/Method", "/s/m", "/pkg.Svc/Method?x=1"]).as_bytes().to_vec(),
+            hdrs: gen_hdrs(rng, 7, &focus),
+            ext: gen_ext(rng),
+            msg: rng.bytes(n),
+            rhdrs: H(rh),
+            rext: gen_ext(rng),
+        });
+    }
+    let mut present: Vec<Vec<u8>> = calls.iter().flat_map(|c| present_names(&c.hdrs)).collect();
+    present.push(b"te".to_vec());
+    present.push(b"content-type".to_vec());
+    present.sort();
+    present.dedup();
+    let nscripts = rng.range(0, 2);
+    let mut scripts: Vec<Script> = (0..nscripts).map(|_| gen_script(rng, &present, 45)).collect();
+    for sc in &mut scripts {
+        if let Some(r) = &mut sc.rej {
+            no_encoding_names(&mut r.md);
+        }
+    }
+    CCase { via: via(rng), scripts, calls }
+}
+
+const ROUTED_PATHS: [&str; 16] = [
+    "/pkg.Svc/M",
+    "/pkg.Svc/M",
+    "/pkg.Svc/Method",
+    "/pkg.Svc/a/b",
+    "/pkg.Svc//x",
+    "/pkg.Svc/M?x=1",
+    "/pkg.Svc/%2F",
+    "/",
+    "/pkg.Svc",
+    "/pkg.Svc/",
+    "/pkg.Svc2/M",
+    "/pkg.Sv/M",
+    "/pkg.svc/M",
+    "//pkg.Svc/M",
+    "/x/pkg.Svc/M",
+    "/other.Svc/M",
+];
+
+fn gen_routed_case(rng: &mut Rng) -> Case {
+    let ncalls = rng.range(1, 5);
+    let mut calls = Vec::new();
+    for _ in 0..ncalls {
+        let mut k = gen_call(rng);
+        k.method = rng.pick(&["POST", "POST", "GET", "OPTIONS", "PUT", "DELETE", "PATCH", "HEAD"]).as_bytes().to_vec();
+        k.uri = canon_uri(*rng.pick(&ROUTED_PATHS));
+        if let Resp::E(_) = k.resp {
+            k.resp = Resp::R { status: 200, version: 2, hdrs: H(vec![]), ext: vec![], body: gen_body(rng) };
+        }
+        calls.push(k);
+    }
+    let mut present: Vec<Vec<u8>> = calls.iter().flat_map(|c| present_names(&c.hdrs)).collect();
+    present.sort();
+    present.dedup();
+    let nscripts = rng.range(0, 3);
+    let scripts: Vec<Script> = (0..nscripts).map(|_| gen_script(rng, &present, 35)).collect();
+    let via = rng.pick(&["new", "layer", "builder"]).to_string();
+    Case { kind: "routed".into(), via, scripts, calls }
+}
+
+pub fn generate(tier: &str, rng: &mut Rng) -> Vec<String> {
+    let thorough = tier == "thorough";
+    let mut out: Vec<String> = Vec::new();
+    let mut push = |c: Case| out.push(render(&c));
+
+    // ---- corpus: witnesses
+    // (1) status metadata carrying `grpc-status-details-bin` while `details` is empty
+    for v in ["AAAA", "!!!", ""] {
+        push(Case {
+            kind: "corpus".into(),
+            via: "new".into(),
+            scripts: vec![Script {
+                ops: vec![],
+                rej: Some(Rej {
+                    ctor: 1,
+                    code: 7,
+                    msg: b"no".to_vec(),
+                    details: vec![],
+                    src: false,
+                    md: H(vec![hb("grpc-status-details-bin", v), hb("x-a", "1")]),
+                }),
+            }],
+            calls: vec![simple_call(H(vec![hb("user-agent", "test-tonic")]))],
+        });
+    }
+    // (2) tonic's own three unit tests, as cases
+    push(Case {
+        kind: "corpus".into(),
+        via: "new".into(),
+        scripts: vec![Script { ops: vec![], rej: None }],
+        calls: vec![simple_call(H(vec![hb("user-agent", "test-tonic")]))],
+    });
+    push(Case {
+        kind: "corpus".into(),
+        via: "new".into(),
+        scripts: vec![Script {
+            ops: vec![],
+            rej: Some(Rej { ctor: 0, code: 7, msg: b"Blocked by the interceptor".to_vec(), details: vec![], src: false, md: H(vec![]) }),
+        }],
+        calls: vec![simple_call(H(vec![]))],
+    });
+    {
+        let mut k = simple_call(H(vec![]));
+        k.method = b"OPTIONS".to_vec();
+        push(Case { kind: "corpus".into(), via: "new".into(), scripts: vec![Script { ops: vec![], rej: None }], calls: vec![k] });
+    }
+    // (3) every reserved name present twice, identity interceptor; then each removed / replaced
+    {
+        let all: Vec<(Vec<u8>, Vec<u8>, bool)> =
+            RESERVED.iter().flat_map(|n| vec![hb(n, "one"), hb(n, "two")]).collect();
+        push(Case {
+            kind: "corpus".into(),
+            via: "layer".into(),
+            scripts: vec![Script { ops: vec![], rej: None }],
+            calls: vec![simple_call(H(all.clone()))],
+        });
+        for n in RESERVED {
+            for op in [
+                Op::HRem(n.as_bytes().to_vec()),
+                Op::HIns(n.as_bytes().to_vec(), b"new".to_vec(), false),
+                Op::HApp(n.as_bytes().to_vec(), b"new".to_vec(), true),
+                Op::MIns(n.as_bytes().to_vec(), b"new".to_vec()),
+                Op::MApp(n.as_bytes().to_vec(), b"new".to_vec()),
+                Op::MRem(n.as_bytes().to_vec()),
+            ] {
+                push(Case {
+                    kind: "corpus".into(),
+                    via: "new".into(),
+                    scripts: vec![Script { ops: vec![op], rej: None }],
+                    calls: vec![simple_call(H(all.clone()))],
+                });
+            }
+        }
+    }
+
+    // ---- structured, systematic: method × version × uri (identity and one insert)
+    for m in METHODS {
+        for v in VERSIONS {
+            for u in URIS {
+                let mut k = simple_call(H(vec![hb("te", "trailers"), hb("x-a", "1")]));
+                k.method = m.as_bytes().to_vec();
+                k.version = v;
+                k.uri = canon_uri(u);
+                let ops = if rng.chance(1, 2) { vec![] } else { vec![gen_op(rng, &[b"te".to_vec(), b"x-a".to_vec()])] };
+                push(Case { kind: "line".into(), via: via(rng), scripts: vec![Script { ops, rej: None }], calls: vec![k] });
+            }
+        }
+    }
+    // ---- structured, systematic: every code × message class × details class × metadata class
+    let md_classes: Vec<H> = vec![
+        H(vec![]),
+        H(vec![hb("x-a", "1")]),
+        H(vec![hb("x-a", "1"), hb("x-b", "2"), hb("x-a", "3")]),
+        H(vec![hb("grpc-status", "0"), hb("grpc-message", "forged"), hb("content-type", "text/plain"), hb("x-a", "1")]),
+        H(vec![hb("te", "x"), hb("user-agent", "ua"), hb("grpc-message-type", "t"), hb("x-bin", "AAAA")]),
+        H(vec![hb("grpc-status-details-bin", "AAAA")]),
+        H(vec![hb("grpc-status-details-bin", "AAAA"), hb("grpc-status-details-bin", "BBBB"), hb("grpc-foo", "bar")]),
+        H(vec![(b"x-s".to_vec(), b"secret".to_vec(), true), hb("X-UP", "up")]),
+    ];
+    for code in 0..=18 {
+        for (mi, msg) in MESSAGES.iter().enumerate() {
+            for details in [vec![], vec![0u8], vec![0xfb, 0xff], vec![1, 2, 3], vec![9, 8, 7, 6]] {
+                // full product in thorough; in quick a diagonal slice plus random picks
+                let take = thorough || (mi + details.len() + (code + 1) as usize) % 5 == 0;
+                if !take {
+                    continue;
+                }
+                let md = if thorough {
+                    md_classes[(mi + details.len() + (code + 1) as usize) % md_classes.len()].clone()
+                } else {
+                    rng.pick(&md_classes).clone()
+                };
+                push(Case {
+                    kind: "status".into(),
+                    via: via(rng),
+                    scripts: vec![Script {
+                        ops: vec![],
+                        rej: Some(Rej { ctor: rng.below(4) as u8, code, msg: msg.as_bytes().to_vec(), details: details.clone(), src: rng.chance(1, 4), md }),
+                    }],
+                    calls: vec![simple_call(H(vec![hb("x-a", "1")]))],
+                });
+            }
+        }
+    }
+    for md in &md_classes {
+        for details in [vec![], vec![5u8, 6]] {
+            for msg in ["", "m"] {
+                push(Case {
+                    kind: "status".into(),
+                    via: via(rng),
+                    scripts: vec![Script {
+                        ops: vec![],
+                        rej: Some(Rej { ctor: 1, code: 3, msg: msg.as_bytes().to_vec(), details: details.clone(), src: false, md: md.clone() }),
+                    }],
+                    calls: vec![simple_call(H(vec![]))],
+                });
+            }
+        }
+    }
+    // every single message byte 0..=127 (percent-encode table through the real code)
+    for b in 0u8..128 {
+        push(Case {
+            kind: "status".into(),
+            via: "new".into(),
+            scripts: vec![Script {
+                ops: vec![],
+                rej: Some(Rej { ctor: 0, code: (b % 17) as i32, msg: vec![b'a', b, b'z'], details: vec![], src: false, md: H(vec![]) }),
+            }],
+            calls: vec![simple_call(H(vec![]))],
+        });
+    }
+    // ---- structured, systematic: name × op × presence
+    let names: Vec<&str> = RESERVED.iter().copied().chain(["x-a", "grpc-timeout", "X-A", "x-bin", "grpc-status-details-bin"]).collect();
+    for n in &names {
+        let nb = n.as_bytes().to_vec();
+        let lower = n.to_ascii_lowercase();
+        let bin = is_bin_name(&nb);
+        let mut ops: Vec<Op> = vec![
+            Op::HIns(nb.clone(), b"new".to_vec(), false),
+            Op::HIns(nb.clone(), b"".to_vec(), true),
+            Op::HApp(nb.clone(), b"new".to_vec(), false),
+            Op::HRem(nb.clone()),
+            Op::Cnt(nb.clone()),
+        ];
+        if bin {
+            ops.extend([Op::BIns(nb.clone(), vec![1, 2]), Op::BApp(nb.clone(), vec![]), Op::BApp(nb.clone(), vec![0xff]), Op::BRem(nb.clone())]);
+        } else {
+            ops.extend([Op::MIns(nb.clone(), b"new".to_vec()), Op::MApp(nb.clone(), b"new".to_vec()), Op::MRem(nb.clone())]);
+        }
+        for op in ops {
+            for presence in 0..4 {
+                let mut h = vec![hb("x-other", "o1")];
+                if presence >= 1 {
+                    h.push(hb(&lower, "old1"));
+                }
+                h.push(hb("x-other", "o2"));
+                if presence >= 2 {
+                    h.push(hb(&lower, "old2"));
+                }
+                if presence == 3 {
+                    h.insert(0, (lower.as_bytes().to_vec(), b"old0".to_vec(), true));
+                }
+                for second in [None, Some(Op::HApp(nb.clone(), b"again".to_vec(), false)), Some(Op::Clear)] {
+                    let mut o = vec![op.clone()];
+                    if let Some(s) = second {
+                        if rng.chance(1, 2) {
+                            o.push(s);
+                        } else {
+                            o.insert(0, s);
+                        }
+                    }
+                    push(Case {
+                        kind: "ops".into(),
+                        via: via(rng),
+                        scripts: vec![Script { ops: o, rej: None }],
+                        calls: vec![simple_call(H(h.clone()))],
+                    });
+                }
+            }
+        }
+    }
+
+    // ---- small-scope exhaustive: every ordered pair of operations over a small alphabet, on a
+    // request that has / has not the names (insert-after-append, remove-after-insert, clear-then-…)
+    {
+        let mut alphabet: Vec<Op> = Vec::new();
+        for n in ["te", "x-a"] {
+            let nb = n.as_bytes().to_vec();
+            alphabet.extend([
+                Op::HIns(nb.clone(), b"hi".to_vec(), false),
+                Op::HApp(nb.clone(), b"ha".to_vec(), true),
+                Op::HRem(nb.clone()),
+                Op::MIns(nb.clone(), b"mi".to_vec()),
+                Op::MApp(nb.clone(), b"ma".to_vec()),
+                Op::MRem(nb.clone()),
+                Op::Cnt(nb.clone()),
+            ]);
+        }
+        alphabet.push(Op::Clear);
+        alphabet.extend([Op::BIns(b"x-bin".to_vec(), vec![1]), Op::BApp(b"x-bin".to_vec(), vec![2, 3]), Op::BRem(b"x-bin".to_vec())]);
+        let full = H(vec![hb("te", "trailers"), hb("x-a", "1"), hb("x-bin", "AA"), hb("x-a", "2"), hb("grpc-status", "7"), hb("te", "t2")]);
+        let sparse = H(vec![hb("grpc-status", "7")]);
+        for a in &alphabet {
+            for b in &alphabet {
+                for h in [&full, &sparse] {
+                    push(Case {
+                        kind: "pairs".into(),
+                        via: "new".into(),
+                        scripts: vec![Script { ops: vec![a.clone(), b.clone()], rej: None }],
+                        calls: vec![simple_call(h.clone())],
+                    });
+                }
+            }
+        }
+    }
+
+    // ---- structured, random: single calls
+    let n_single = if thorough { 60_000 } else { 3_000 };
+    for _ in 0..n_single {
+        let call = gen_call(rng);
+        let present = present_names(&call.hdrs);
+        let script = gen_script(rng, &present, 30);
+        let kind = if script.rej.is_some() { "reject" } else { "accept" };
+        push(Case { kind: kind.into(), via: via(rng), scripts: vec![script], calls: vec![call] });
+    }
+    // ---- structured, random: sequences on one service value (stateful interceptor)
+    let n_seq = if thorough { 15_000 } else { 800 };
+    for _ in 0..n_seq {
+        let ncalls = rng.range(2, 6);
+        let calls: Vec<Call> = (0..ncalls).map(|_| gen_call(rng)).collect();
+        let mut present: Vec<Vec<u8>> = calls.iter().flat_map(|c| present_names(&c.hdrs)).collect();
+        present.sort();
+        present.dedup();
+        let nscripts = rng.range(0, 4);
+        let scripts: Vec<Script> = (0..nscripts).map(|_| gen_script(rng, &present, 40)).collect();
+        push(Case { kind: "seq".into(), via: via(rng), scripts, calls });
+    }
+    // ---- back-pressure: the wrapped service is not ready before some calls
+    let n_ready = if thorough { 5_000 } else { 400 };
+    for _ in 0..n_ready {
+        let ncalls = rng.range(1, 5);
+        let calls: Vec<Call> = (0..ncalls)
+            .map(|_| {
+                let mut k = gen_call(rng);
+                k.ready = match rng.below(5) {
+                    0 => 1,
+                    1 => 2 + rng.below(50) as u32,
+                    _ => 0,
+                };
+                k
+            })
+            .collect();
+        let nscripts = rng.range(0, 2);
+        let scripts: Vec<Script> = (0..nscripts).map(|_| gen_script(rng, &[], 40)).collect();
+        push(Case { kind: "ready".into(), via: via(rng), scripts, calls });
+    }
+    // ---- "malformed": hostile-but-typed inputs (nothing here is parsed by tonic, so the
+    // adversarial inputs are odd names / values / statuses rather than broken bytes)
+    let n_odd = if thorough { 10_000 } else { 600 };
+    for _ in 0..n_odd {
+        let mut call = gen_call(rng);
+        // many values under one name, all flavours of the reserved names in all cases
+        let nm = gen_any_name(rng);
+        for i in 0..rng.range(3, 12) {
+            let mut n2 = nm.clone();
+            if i % 2 == 1 {
+                n2 = n2.to_ascii_uppercase();
+            }
+            call.hdrs.0.push((n2, gen_value(rng), i % 3 == 0));
+        }
+        let present = present_names(&call.hdrs);
+        let mut script = gen_script(rng, &present, 50);
+        if let Some(r) = &mut script.rej {
+            // status metadata mirrors the request's (hostile echo), reserved names included
+            if rng.chance(1, 2) {
+                r.md = call.hdrs.clone();
+            }
+        }
+        push(Case { kind: "odd".into(), via: via(rng), scripts: vec![script], calls: vec![call] });
+    }
+    // ---- client kind: Grpc<InterceptedService<Mock, F>>::server_streaming (prepare_request ->
+    // interceptor -> transport; trailers-only answer / rejection decoded by the real client)
+    let n_routed = if thorough { 15_000 } else { 1_200 };
+    for _ in 0..n_routed {
+        let c = gen_routed_case(rng);
+        out.push(render(&c));
+    }
+    let n_client = if thorough { 15_000 } else { 1_200 };
+    for _ in 0..n_client {
+        let c = gen_client_case(rng);
+        out.push(render_client(&c));
+    }
+    out
 }
